@@ -138,6 +138,18 @@ class SymMode:
             return SB(c=False)
         return SB.lift(_nan_term(x.t))
 
+    def sum_is_one(self, probs):
+        """sum(probs) == 1.  When every symbolic term is a quotient num_a / den with one common denominator, the
+        sufficient linear condition  sum(num_a) == den  (den != 0 on the path) is stated instead."""
+        probs = [SV.lift(p) for p in probs]
+        sym = [p for p in probs if p.c is None]
+        if sym and all(z3.is_app_of(p.t, z3.Z3_OP_DIV) for p in sym):
+            dens = [p.t.arg(1) for p in sym]
+            if all(d.eq(dens[0]) for d in dens) and all(p.c == 0 for p in probs if p.c is not None):
+                tot = z3.Sum(*[p.t.arg(0) for p in sym]) if len(sym) > 1 else sym[0].t.arg(0)
+                return SB(t=z3.And(tot == dens[0], dens[0] != 0))
+        return self.sum_(probs) == 1
+
     def count(self, flags):
         r = SV.lift(0)
         for f in flags:
@@ -396,6 +408,9 @@ class NativeMode:
 
     def count(self, flags):
         return sum(1 for f in flags if bool(f))
+
+    def sum_is_one(self, probs):
+        return NV(sum(float(p) for p in probs)) == 1
 
     def is_nan(self, x):
         return x is not None and float(x) != float(x)
